@@ -127,6 +127,10 @@ func runProxied(r *mon.Run) {
 	defer p.close()
 	n := r.Pick(3000, 150000)
 	for i := 0; i < n; i++ {
+		if wedgesSeen.Load() >= maxWedges {
+			st.count("cases_skipped_after_repeated_wedges", n-i)
+			return
+		}
 		c := genCase(rng, p.t, []string{"http", "http", "grpc", "web", "webtext", "ws-mem"})
 		c.Target, c.Opts = "proxy", []int{0, 7}[rng.Intn(2)]
 		o := serveInproc(c, p.t.cache[c.Opts])
